@@ -14,12 +14,16 @@
 //     crash fresh stores (cold cache, both latestStatusToday settings) are
 //     opened on the surviving directory and the oracle of oracle.go is checked.
 //
-// Self-checks (check errors, never verdicts): the un-killed trace replayed on
-// a model of the directory reproduces the real final directory (names and
-// sizes), so no modification escapes the tracer; every crash run's trace is a
-// prefix of the baseline and the surviving directory is exactly what the
-// prefix predicts, so the kill happened exactly at K; the oracle accepts the
-// prior state and the final state of every history.
+// Self-checks of the harness (check errors, never verdicts, and never a
+// precondition for judging a member): two baselines must give the same trace;
+// every crash run's trace must be a prefix of the baseline (else it is
+// repeated once, reported, and the surviving directory is judged anyway); the
+// calls that returned, replayed on a model of the directory (files, sizes,
+// directories incl. renames of whole directories), must give the real
+// surviving directory, so that no modification escapes the tracer and the
+// kill happened exactly at K.  The last member of every history is K = N+1:
+// the operation ran to its end; a prior state that already breaks the
+// property is reported as a violation at "prior-<p>/…/at=end".
 package main
 
 import (
@@ -198,7 +202,50 @@ type prepared struct {
 	finalFS  *FS
 }
 
-func (hn *harness) prepare(h *History, idx int) (*prepared, error) {
+// modelCheck is a self-check of the harness, never a precondition for judging:
+// the calls that returned, replayed on a model of the directory, should give
+// the real directory (names and sizes).  A call kind the model does not know
+// skips the comparison (counted); a mismatch is a check error and the member
+// is evaluated by the oracle all the same.
+func (hn *harness) modelCheck(p *prepared, calls []Call, data, what string) {
+	pred := p.priorFS.clone()
+	if un := pred.apply(calls); len(un) > 0 {
+		for _, k := range un {
+			hn.res.Count("model_selfcheck_skipped:"+k, 1)
+		}
+		return
+	}
+	got, err := listFS(data)
+	if err != nil {
+		hn.res.CheckError("history %s %s: cannot list %s: %v", p.h.Name, what, data, err)
+		return
+	}
+	if pred.String() != got.String() {
+		hn.res.Count("model_selfcheck_mismatch", 1)
+		hn.res.CheckError("history %s %s: the directory is not what the trace predicts (tracer or model incomplete): predicted {%s} real {%s}", p.h.Name, what, pred, got)
+	}
+}
+
+func (hn *harness) violate(h *History, mb member, pos, where string, acks []string, surv *FS, findings []finding) {
+	seen := map[string]bool{}
+	n, _ := ackCount(acks)
+	for _, f := range findings {
+		sig := "C07/" + f.Kind + "/" + pos
+		if seen[sig] {
+			continue
+		}
+		seen[sig] = true
+		detail := fmt.Sprintf("history %s (prior %s, operation %s), %s; %d store calls acknowledged %v; surviving directory {%s}: %s",
+			h.Name, h.PriorName, h.Op, where, n, acks, surv, f.Detail)
+		hn.res.Violate(sig, detail, mb)
+	}
+}
+
+// prepare builds the prior state and the baseline of a history.  A nil result
+// without error means the history cannot be enumerated because the prior state
+// itself (recorded by un-killed store calls) already breaks the property; that
+// has been reported as a violation.
+func (hn *harness) prepare(h *History, idx int, report bool) (*prepared, error) {
 	p := &prepared{h: h, idx: idx, hdir: filepath.Join(hn.fl.Work, fmt.Sprintf("h%02d", idx))}
 	if err := os.MkdirAll(p.hdir, 0o755); err != nil {
 		return nil, err
@@ -217,9 +264,16 @@ func (hn *harness) prepare(h *History, idx int) (*prepared, error) {
 		return nil, err
 	}
 	p.priorDig = digest(p.prior)
-	// the oracle must accept the prior state (nothing acknowledged yet)
+	// The prior runs were recorded and acknowledged by un-killed store calls; a process that
+	// dies after that (before the operation under test starts) must leave them served.
 	if f := runOracle(h, 0, p.prior); len(f) > 0 {
-		return nil, fmt.Errorf("history %s: the oracle rejects the prior state: %s: %s", h.Name, f[0].Kind, f[0].Detail)
+		if report {
+			hn.res.Evaluations++
+			hn.violate(h, member{h.Name, 0, -1}, "prior-"+h.PriorName+"/after=close/at=end",
+				"no kill: the prior runs were recorded through Open/Write/Close"+map[bool]string{true: "/Update", false: ""}[len(h.Prior) > 0 && h.Prior[0].Updated]+" that all returned",
+				nil, p.priorFS, f)
+		}
+		return nil, nil
 	}
 	var norm [2][]string
 	for i := 0; i < 2; i++ {
@@ -227,7 +281,7 @@ func (hn *harness) prepare(h *History, idx int) (*prepared, error) {
 		if err != nil {
 			return nil, fmt.Errorf("history %s baseline: %v", h.Name, err)
 		}
-		n, errLine := ackCount(cr.acks)
+		_, errLine := ackCount(cr.acks)
 		if cr.exit != 0 || errLine != "" || len(cr.acks) == 0 || cr.acks[len(cr.acks)-1] != "DONE" {
 			return nil, fmt.Errorf("history %s: the un-killed child failed (exit %d, acks %v, stderr %s)", h.Name, cr.exit, cr.acks, vlib.Short(cr.errs, 300))
 		}
@@ -240,17 +294,9 @@ func (hn *harness) prepare(h *History, idx int) (*prepared, error) {
 		if i == 0 {
 			p.base = cr.trace
 			p.finalDig = digest(cr.data)
-			// self-check: the trace explains the final directory completely
-			pred := p.priorFS.clone()
-			pred.apply(cr.trace.Calls)
-			got, _ := listFS(cr.data)
-			if pred.String() != got.String() {
-				return nil, fmt.Errorf("history %s: the baseline trace does not reproduce the final directory: predicted {%s} real {%s}", h.Name, pred, got)
-			}
-			p.finalFS = got
-			// the oracle must accept the final state (everything acknowledged)
-			if f := runOracle(h, n, cr.data); len(f) > 0 {
-				return nil, fmt.Errorf("history %s: the oracle rejects the state after the un-killed operation: %s: %s", h.Name, f[0].Kind, f[0].Detail)
+			p.finalFS, _ = listFS(cr.data)
+			if report {
+				hn.modelCheck(p, cr.trace.Calls, cr.data, "baseline")
 			}
 		}
 		_ = os.RemoveAll(cr.dir)
@@ -261,7 +307,9 @@ func (hn *harness) prepare(h *History, idx int) (*prepared, error) {
 	return p, nil
 }
 
-// members of a prepared history, in canonical order.
+// members of a prepared history, in canonical order: kill at the entry of
+// every call, torn variants of every write, and finally K = N+1: the operation
+// ran to its end (the instant after its last call).
 func (p *prepared) members() []member {
 	var out []member
 	for _, c := range p.base.Calls {
@@ -283,31 +331,52 @@ func (p *prepared) members() []member {
 			}
 		}
 	}
+	out = append(out, member{p.h.Name, len(p.base.Calls) + 1, -1})
 	return out
 }
 
-// crash executes one member and checks the oracle.  Returns the findings.
+// crash executes one member and checks the oracle on the surviving directory.
 func (hn *harness) crash(p *prepared, mb member, verbose bool) error {
 	res := hn.res
 	h := p.h
+	atEnd := mb.K == len(p.base.Calls)+1
 	dir := filepath.Join(p.hdir, fmt.Sprintf("k%03dm%d", mb.K, mb.M))
 	defer os.RemoveAll(dir)
 	var cr *crashRun
 	var why string
 	for attempt := 0; attempt < 2; attempt++ {
 		var err error
-		cr, err = hn.runChild(h, p.spec, p.prior, dir, mb.K, mb.M)
+		k := mb.K
+		if atEnd {
+			k = 0
+		}
+		cr, err = hn.runChild(h, p.spec, p.prior, dir, k, mb.M)
 		if err != nil {
 			return err
 		}
-		why = hn.validate(p, mb, cr)
+		why = hn.validate(p, mb, cr, atEnd)
 		if why == "" {
 			break
 		}
 		res.Count("crash_runs_repeated", 1)
 	}
+	// the calls that describe the crash point: the baseline's when the run followed it (the rule),
+	// the run's own otherwise
+	calls := p.base.Calls
 	if why != "" {
-		return fmt.Errorf("scenario not deterministic: history %s K=%d M=%d: %s", h.Name, mb.K, mb.M, why)
+		// not a verdict about the code — but the surviving directory is still judged by the oracle
+		res.CheckError("scenario not deterministic: history %s K=%d M=%d: %s", h.Name, mb.K, mb.M, why)
+		wantExit := 99
+		if atEnd {
+			wantExit = 0
+		}
+		if cr.exit != wantExit || (!atEnd && len(cr.trace.Calls) == 0) {
+			return nil
+		}
+		calls = cr.trace.Calls
+		if !atEnd {
+			mb.K = len(calls)
+		}
 	}
 	res.Evaluations++
 	acks, _ := ackCount(cr.acks)
@@ -316,24 +385,34 @@ func (hn *harness) crash(p *prepared, mb member, verbose bool) error {
 	if nontrivial {
 		res.Nontrivial(vlib.Hash(h.Name, mb.K, mb.M))
 	}
-	call := p.base.Calls[mb.K-1]
-	prev := "start"
-	if mb.K >= 2 {
-		prev = p.base.Calls[mb.K-2].Desc()
+	hn.modelCheck(p, cr.trace.Calls, cr.data, fmt.Sprintf("K=%d M=%d", mb.K, mb.M))
+	prev, at, where := "start", "end", "not killed: the operation ran to its end"
+	if atEnd {
+		if len(calls) > 0 {
+			prev = calls[len(calls)-1].Desc()
+		}
+	} else {
+		call := calls[mb.K-1]
+		if mb.K >= 2 {
+			prev = calls[mb.K-2].Desc()
+		}
+		at = call.Desc()
+		where = fmt.Sprintf("killed at call K=%d [%s]", mb.K, call.Short())
+		if mb.M >= 0 {
+			at += "/torn"
+			where += fmt.Sprintf(", the write torn after %d of %d bytes", mb.M, call.Len)
+		}
 	}
-	pos := fmt.Sprintf("%s/after=%s/at=%s", opName(h, acks), prev, call.Desc())
-	if mb.M >= 0 {
-		pos += "/torn"
-	}
+	pos := fmt.Sprintf("%s/after=%s/at=%s", opName(h, acks), prev, at)
 	surv, _ := listFS(cr.data)
 	res.Count("crash_points:"+h.Name, 1)
-	if mb.K%5 == 2 && mb.M < 0 && (p.idx%2 == 0) {
-		res.Sample(map[string]any{"history": h.Name, "k": mb.K, "killed_at": call.Short(),
+	if mb.K%5 == 2 && mb.M < 0 && (p.idx%2 == 0) && !atEnd {
+		res.Sample(map[string]any{"history": h.Name, "k": mb.K, "killed_at": calls[mb.K-1].Short(),
 			"acks": cr.acks, "surviving": surv.String(), "differs_from_before_and_after": nontrivial})
 	}
 	findings := runOracle(h, acks, cr.data)
 	if verbose {
-		fmt.Printf("history %s K=%d M=%d position %s\n  call: %s\n  acks: %v\n  surviving: %s\n", h.Name, mb.K, mb.M, pos, call.Short(), cr.acks, surv)
+		fmt.Printf("history %s K=%d M=%d position %s\n  %s\n  acks: %v\n  surviving: %s\n", h.Name, mb.K, mb.M, pos, where, cr.acks, surv)
 		for _, c := range p.base.Calls {
 			fmt.Printf("  baseline %2d %-20s %s ret=%d\n", c.K, c.Desc(), c.Short(), c.Ret)
 		}
@@ -344,27 +423,28 @@ func (hn *harness) crash(p *prepared, mb member, verbose bool) error {
 			fmt.Printf("  FINDING %s: %s\n", f.Kind, f.Detail)
 		}
 	}
-	seen := map[string]bool{}
-	for _, f := range findings {
-		sig := "C07/" + f.Kind + "/" + pos
-		if seen[sig] {
-			continue
-		}
-		seen[sig] = true
-		tear := ""
-		if mb.M >= 0 {
-			tear = fmt.Sprintf(", the write torn after %d of %d bytes", mb.M, call.Len)
-		}
-		detail := fmt.Sprintf("history %s (prior %s, operation %s), killed at call K=%d [%s]%s; %d store calls acknowledged %v; surviving directory {%s}: %s",
-			h.Name, h.PriorName, h.Op, mb.K, call.Short(), tear, acks, cr.acks, surv, f.Detail)
-		res.Violate(sig, detail, mb)
-	}
+	hn.violate(h, mb, pos, where, cr.acks, surv, findings)
 	return nil
 }
 
-// validate: the crash run must be the baseline up to K, and the surviving
-// directory must be exactly what that prefix predicts.
-func (hn *harness) validate(p *prepared, mb member, cr *crashRun) string {
+// validate: the crash run must be the baseline up to K (same calls, same
+// return values, killed / torn exactly at K); the un-killed member must be the
+// whole baseline.
+func (hn *harness) validate(p *prepared, mb member, cr *crashRun, atEnd bool) string {
+	if atEnd {
+		if cr.exit != 0 || len(cr.acks) == 0 || cr.acks[len(cr.acks)-1] != "DONE" {
+			return fmt.Sprintf("the un-killed child ended with exit %d, acks %v", cr.exit, cr.acks)
+		}
+		if len(cr.trace.Calls) != len(p.base.Calls) {
+			return fmt.Sprintf("trace has %d calls, the baseline %d", len(cr.trace.Calls), len(p.base.Calls))
+		}
+		for i, c := range cr.trace.Calls {
+			if c.Norm() != p.base.Calls[i].Norm() || !c.Done || c.Ret != p.base.Calls[i].Ret {
+				return fmt.Sprintf("call %d differs from the baseline: %q vs %q", i+1, c.RawLine, p.base.Calls[i].RawLine)
+			}
+		}
+		return ""
+	}
 	if cr.exit != 99 {
 		return fmt.Sprintf("vtrace exit %d instead of 99 (end: %s; stderr %s)", cr.exit, cr.trace.End, vlib.Short(cr.errs, 200))
 	}
@@ -385,15 +465,6 @@ func (hn *harness) validate(p *prepared, mb member, cr *crashRun) string {
 		if last && mb.M >= 0 && (!c.Done || c.Ret != int64(mb.M)) {
 			return fmt.Sprintf("call %d was to be torn to %d bytes: %q", i+1, mb.M, c.RawLine)
 		}
-	}
-	pred := p.priorFS.clone()
-	pred.apply(cr.trace.Calls)
-	got, err := listFS(cr.data)
-	if err != nil {
-		return err.Error()
-	}
-	if pred.String() != got.String() {
-		return fmt.Sprintf("surviving directory {%s} is not what the trace prefix predicts {%s}", got, pred)
 	}
 	return ""
 }
@@ -486,14 +557,18 @@ func main() {
 			continue
 		}
 		names = append(names, h.Name)
-		p, err := hn.prepare(h, hi)
+		report := fl.Shard == 0 || replay != nil
+		p, err := hn.prepare(h, hi, report)
 		if err != nil {
 			res.CheckError("%v", err)
 			continue
 		}
+		if p == nil {
+			continue // the prior state itself violates the property (reported by prepare)
+		}
 		mbs := p.members()
-		if fl.Shard == 0 || replay != nil {
-			res.Validated++ // baseline trace reproduces the real final directory; oracle accepts before and after
+		if report {
+			res.Validated++ // two identical baseline traces, replayed on the directory model
 			res.Count("relevant_calls:"+h.Name, int64(len(p.base.Calls)))
 			res.Count("members:"+h.Name, int64(len(mbs)))
 		}
